@@ -137,7 +137,7 @@ def run_cases(sc, wire, cases, name='b', runtime=True, check=False, show=False, 
             for ci, v in sorted(per.items()):
                 c = b.cases[ci - 1]
                 allobs.append({'ci': ci, 'key': c.case['key'], 'cmd': 'value', 'home': v['home'], 'inj': v['inj'],
-                               'failed': False, 'wrote': False, 'panic': False, 'hang': False, 'diags': [], 'built': 'ok'})
+                               'failed': False, 'wrote': False, 'panic': False, 'hang': False, 'diags': [], 'built': 'ok', 'frame_ok': True})
     badidx, n = judge_static(sc, cases_path, allobs, name=name + '-judge')
     out.n_obs = n
     for i in sorted(badidx):
